@@ -28,7 +28,7 @@ DECIDED = [
     'temperature and pressure base of the standard station at h; at the station altitude the long formula gives '
     'exactly the station density and the cached Mach up to the twin tolerance; the shortcut returns the cached '
     'values within the stated 30 ft',
-    'R3 humidity is stored only by its setter, which raises exactly outside [0, 100], stores value/100 above 1 and '
+    'R3 humidity is stored only by its setter, which raises exactly outside [0, 100] leaving the stored value untouched, stores value/100 above 1 and '
     'the value itself otherwise; the density routine receives the stored fraction',
     'R4 in a Vacuum the density ratio is the literal 0 after construction, stays 0 through every operation that '
     'recomputes it, and both branches of the altitude query return it times a factor',
@@ -331,6 +331,11 @@ def run(prog: Program, rep, thorough: bool) -> None:
             if want == 'raise':
                 if l.kind != 'raise':
                     problems.append(f'humidity {x} is accepted')
+                else:
+                    kept = l.state.heap[obj.oid].get('_humidity')
+                    if not (isinstance(kept, Scalar) and kept.rf.equals(A.sym('old'))):
+                        problems.append(f'humidity {x} is rejected only after it has been stored: the object keeps {kept!r} '
+                                        f'when the error is caught')
             else:
                 if l.kind == 'raise':
                     problems.append(f'humidity {x} is rejected')
